@@ -689,7 +689,7 @@ fn gen_op(rng: &mut Rng, m: &RefArchive) -> (Op, bool) {
     (op, streamable && rng.bool())
 }
 
-pub const REQUIRED: &[&str] = &["grid", "empty_archive", "writer_write_bytes_past_end", "read_bytes_len_overflow", "history"];
+pub const REQUIRED: &[&str] = &["grid", "empty_archive", "writer_write_bytes_past_end", "read_bytes_len_overflow", "history", "long_lived_writer_sequence"];
 
 pub fn run(cx: &mut Ctx) {
     cx.require(REQUIRED);
@@ -740,6 +740,15 @@ pub fn run(cx: &mut Ctx) {
             let len = if cfg!(miri) { rng.range(5, 20) } else { rng.range(10, 80) };
             let mut hist = Vec::new();
             for _ in 0..len {
+                if rng.chance(1, 15) {
+                    // several steps on one long-lived writer (stream accesses must keep behaving like
+                    // the positional calls at the cursor even after the writer changed the size)
+                    let steps = super::c03::gen_writer_seq(&mut rng, &model);
+                    if !super::c03::exec_writer_seq(c, &mut real, &mut model, &steps) {
+                        break;
+                    }
+                    continue;
+                }
                 let (op, stream) = gen_op(&mut rng, &model);
                 if hist.len() < 12 {
                     hist.push(format!("{}{:?}", if stream { "stream:" } else { "" }, op));
